@@ -61,6 +61,7 @@ def plan(tier, seed):
     nr = 3 if tier == 'quick' else 14
     shards.extend({'kind': 'rect', 'cases': rect[i::nr]} for i in range(nr))
     shards.append({'kind': 'split', 'cases': split_cases(tier)})
+    shards.append({'kind': 'derived'})
     return shards
 
 
@@ -301,6 +302,22 @@ def run_rect(ctx, spec):
                 c['nx'] * c['ny'], (c['nx'] + 1) * (c['ny'] + 1), c['nz'] + 1, geo.num_columns, geo.num_nodes, geo.num_layers), c)
             continue
         check_geometry_names(ctx, geo, c)
+        if 3 <= c['nx'] <= 12 and 3 <= c['ny'] <= 12 and c['nz'] <= 30:
+            # a sub-model: the same geometry without one interior column / one column in the middle of a side / a corner
+            # column (the first two orphan no node): its block names are those of the columns that are left
+            for which, (ix, iy) in (('interior', (c['nx'] // 2, c['ny'] // 2)), ('mid-side', (c['nx'] // 2, 0)), ('corner', (0, 0))):
+                sub = mg.mulgrid().rectangular([10.] * c['nx'], [10.] * c['ny'], [1.] * c['nz'], convention=c['convention'], atmos_type=c['atmos_type'],
+                                               justify=c['justify'], case=c['case'], spaces=c['spaces'], **kw)
+                out = sub.columnlist[iy + ix * c['ny']] if len(sub.columnlist) == c['nx'] * c['ny'] else sub.columnlist[0]
+                keep = [col for col in sub.columnlist if col is not out]
+                with ctx.guard(c, where='reduce:' + which) as g1:
+                    sub.reduce(keep)
+                if g1.raised is None:
+                    ctx.count('reduced_geometries_checked')
+                    if sub.num_columns != len(keep):
+                        ctx.violation('reduce-column-count', 'reduce() to %d columns leaves %d' % (len(keep), sub.num_columns), c)
+                    else:
+                        check_geometry_names(ctx, sub, c, prefix='reduced[%s]:' % which)
         if geo.num_blocks <= 1500 and c['justify'] == 'r':
             # the same names must come back from a geometry file (the reader sets the name lengths of the file's
             # convention before it builds names), and be well-formed there too; right-justified names only: the
@@ -602,8 +619,154 @@ def run_split(ctx, spec):
                 ctx.count('refinements_refused_by_naming_error')
 
 
+def file_names_roundtrip(ctx, geo, c, tag):
+    """Names of nodes, columns and blocks after a write / read of the geometry, and after a read of the same file with the
+    names re-spelt at the right of their fields."""
+    mg = R.mulgrids
+    fn = os.path.join(ctx.tmp, 'c17_d.dat')
+    with ctx.guard(c, where='file-round-trip:' + tag) as g2:
+        geo.write(fn)
+        back = mg.mulgrid(fn)
+    if g2.raised is not None:
+        return
+    ctx.count('geometries_reread_from_file')
+
+    def same(a, b):
+        return list(a.block_name_list) == list(b.block_name_list) and [x.name for x in a.columnlist] == [x.name for x in b.columnlist] and \
+            [x.name for x in a.nodelist] == [x.name for x in b.nodelist]
+    if not same(geo, back):
+        ctx.violation('names-change-in-file-round-trip:' + tag, '%d columns, %d nodes, %d blocks written; %d, %d, %d read back; first column names %r vs %r' % (
+            geo.num_columns, geo.num_nodes, len(geo.block_name_list), back.num_columns, back.num_nodes, len(back.block_name_list),
+            [x.name for x in geo.columnlist][-4:], [x.name for x in back.columnlist][-4:]), c)
+        return
+    with open(fn) as fh:
+        lines = fh.read().split('\n')
+    sec, out = None, []
+    for k, l in enumerate(lines):
+        if k == 0 or sec is None or not l.strip():
+            if k and sec is None:
+                sec = l[:5].upper() if l.strip() else None
+            elif not l.strip():
+                sec = None
+            out.append(l)
+            continue
+        if sec in ('VERTI', 'GRID', 'GRID ', 'LAYER', 'SURFA'):
+            l = l[:3].strip().rjust(3) + l[3:]
+        elif sec == 'CONNE':
+            l = l[:3].strip().rjust(3) + l[3:6].strip().rjust(3) + l[6:]
+        out.append(l)
+    with open(fn, 'w') as fh:
+        fh.write('\n'.join(out))
+    with ctx.guard(c, where='file-right-aligned-names:' + tag) as g3:
+        back2 = mg.mulgrid(fn)
+    if g3.raised is None:
+        ctx.count('geometries_reread_with_right_aligned_names')
+        if not same(geo, back2):
+            ctx.violation('names-change-with-alignment-in-file:' + tag, 'names right-aligned in their file fields read back differently (%d vs %d columns, %d vs %d blocks)' % (
+                geo.num_columns, back2.num_columns, len(geo.block_name_list), len(back2.block_name_list)), c)
+
+
+def check_names_invert(ctx, geo, c, prefix):
+    """For geometries with surfaces (not every column has a block in every layer): every block name is five characters,
+    distinct, and splits into a layer and a column of the geometry that give the same name back."""
+    names = list(geo.block_name_list)
+    if len(set(names)) != len(names) or any(not isinstance(n, str) or len(n) != 5 for n in names):
+        ctx.violation(prefix + 'duplicate-or-malformed-block-names', '%d block names, %d distinct; not 5 characters: %r' % (
+            len(names), len(set(names)), [n for n in names if not isinstance(n, str) or len(n) != 5][:3]), c)
+        return
+    natm = [1, geo.num_columns, 0][geo.atmosphere_type]
+    bad = 0
+    for k, b in enumerate(names):
+        ln, cn = geo.layer_name(b), geo.column_name(b)
+        single_atm = geo.atmosphere_type == 0 and k == 0
+        ok = ln in geo.layer and (single_atm or cn in geo.column) and (single_atm or geo.block_name(ln, cn) == b)
+        if k < natm and ln != geo.layerlist[0].name[:len(ln)] and ln != geo.layerlist[0].name:
+            ok = False
+        if not ok:
+            bad += 1
+            if bad == 1:
+                ctx.violation(prefix + 'not-invertible', 'block %r splits into layer %r / column %r (layer known: %s, column known: %s)' % (
+                    b, ln, cn, ln in geo.layer, cn in geo.column), c)
+    ctx.count('blocks_inverted', len(names))
+
+
+def run_derived(ctx, spec):
+    """Geometries whose newest names were invented by the editing methods (decompose / triangulate / split / refine): the
+    same demands as on a freshly built one, in memory and through a file."""
+    from vf.gen import geoops
+    mg = R.mulgrids
+    cases = []
+    for base in ('mixed-pentagon', 'mixed-hexagon'):
+        for atm in (0, 1, 2):
+            cases.append(('base', base, 0, atm, 'decompose'))
+            cases.append(('base', base, 0, atm, 'triangulate-polygon'))
+    for conv in range(4):
+        for op in ('triangulate', 'split', 'refine', 'refine-bisect'):
+            cases.append(('rect', (3, 3, 3), conv, conv % 3, op))
+    # geometries as they come from files, whose layers and columns are called whatever their author liked ('01', 'AA',
+    # 'GS'): every block name still splits into the column and the layer it was built from
+    from vf.gen import geos
+    for name in geos.SHIPPED:
+        c = {'kind': 'derived', 'from': name, 'operation': 'shipped'}
+        with ctx.guard(c, where='load-shipped') as g:
+            geo = geos.load_shipped(name)
+        if g.raised is not None:
+            continue
+        ctx.evaluated()
+        ctx.count('derived_geometries_checked')
+        ctx.see('derived_by', 'shipped')
+        ctx.case(('shipped', name), nontrivial=True)
+        check_names_invert(ctx, geo, c, 'shipped[%s]:' % name)
+    # ... and layers renamed by the user to two-digit names with a leading zero, under convention 0
+    for atm in (0, 1, 2):
+        c = {'kind': 'derived', 'from': (3, 2, 12), 'convention': 0, 'atmos_type': atm, 'operation': 'rename_layer'}
+        geo = mg.mulgrid().rectangular([10.] * 3, [12.] * 2, [2.] * 12, convention=0, atmos_type=atm)
+        with ctx.guard(c, where='rename_layer') as g:
+            for k, lay in enumerate(list(geo.layerlist[1:])):
+                geo.rename_layer(lay.name, '%02d' % (k + 1))
+        if g.raised is None:
+            ctx.evaluated()
+            ctx.count('derived_geometries_checked')
+            ctx.see('derived_by', 'rename_layer')
+            check_geometry_names(ctx, geo, c, prefix='renamed-layers:')
+            file_names_roundtrip(ctx, geo, c, 'rename_layer')
+    for kind, what, conv, atm, op in cases:
+        c = {'kind': 'derived', 'from': what, 'convention': conv, 'atmos_type': atm, 'operation': op}
+        try:
+            if kind == 'base':
+                geo = geoops.base(what, atmos_type=atm, convention=conv, surfaces=False)
+            else:
+                geo = mg.mulgrid().rectangular([10.] * what[0], [12.] * what[1], [2.] * what[2], convention=conv, atmos_type=atm)
+        except Exception as e:
+            raise HarnessError('building %r failed: %r' % (c, e))
+        with ctx.guard(c, where='derive:' + op) as g:
+            if op == 'decompose':
+                geo.decompose_columns([col for col in geo.columnlist if col.num_nodes > 4])
+            elif op == 'triangulate-polygon':
+                geo.triangulate_column([col for col in geo.columnlist if col.num_nodes > 4][0].name)
+                geoops.careful_refresh(geo)
+            elif op == 'triangulate':
+                geo.triangulate_column(geo.columnlist[4].name)
+                geoops.careful_refresh(geo)
+            elif op == 'split':
+                col = geo.columnlist[4]
+                geo.split_column(col.name, col.node[0].name)
+            elif op == 'refine':
+                geo.refine([geo.columnlist[4]])
+            else:
+                geo.refine([geo.columnlist[4], geo.columnlist[5]], bisect=True)
+        if g.raised is not None:
+            continue
+        ctx.evaluated()
+        ctx.count('derived_geometries_checked')
+        ctx.see('derived_by', op)
+        ctx.case(('derived', repr(sorted(c.items()))), nontrivial=True)
+        check_geometry_names(ctx, geo, c, prefix='derived[%s]:' % op)
+        file_names_roundtrip(ctx, geo, c, op)
+
+
 def run_shard(ctx, spec):
-    {'names': run_names, 'rect': run_rect, 'fixunfix': run_fixunfix, 'split': run_split}[spec['kind']](ctx, spec)
+    {'names': run_names, 'rect': run_rect, 'fixunfix': run_fixunfix, 'split': run_split, 'derived': run_derived}[spec['kind']](ctx, spec)
 
 
 def replay(ctx, case):
@@ -612,6 +775,8 @@ def replay(ctx, case):
         check_name(ctx, mg, case['name'], 'replay')
     elif case.get('kind') == 'split':
         run_split(ctx, {'cases': [case]})
+    elif case.get('kind') == 'derived':
+        run_derived(ctx, {})
     elif 'nx' in case:
         run_rect(ctx, {'cases': [case]})
     elif 'function' in case and case['function'].endswith('_from_number'):
